@@ -57,22 +57,28 @@ impl LspProject {
             }
 
             // The lexer counts columns in characters; the protocol counts them in UTF-16
-            // code units. The tokens cover the whole text, so walk them to find where
-            // each one starts in those units.
+            // code units. The positions of the tokens are those of the text as it was
+            // written (the token text is not: a blanked description has one blank per
+            // byte), so count the units from the start of the line in that text.
+            let written = self
+                .wrapped
+                .find(&file_id)
+                .map(|source| source.as_string().to_owned())
+                .unwrap_or_default();
+            let mut offset = 0;
             let mut column = 0;
             let tokens: Vec<Token> = result
                 .0
                 .into_iter()
                 .map(|mut tok| {
-                    tok.col = column;
-                    match tok.token_type {
-                        TokenType::Newline if tok.text != "\u{c}" => column = 0,
-                        _ => {
-                            for c in tok.text.chars() {
-                                column = if c == '\n' { 0 } else { column + c.len_utf16() };
-                            }
+                    // The tokens are in the order of the text: read on from the previous one
+                    if let Some(between) = written.get(offset..tok.span.start) {
+                        for c in between.chars() {
+                            column = if c == '\n' { 0 } else { column + c.len_utf16() };
                         }
+                        offset = tok.span.start;
                     }
+                    tok.col = column;
                     tok
                 })
                 .collect();
